@@ -129,6 +129,17 @@ def s7_own_backend(chk: Check, proj: Project) -> None:
     eff = {}
     if isinstance(opts, ast.Dict):
         eff = {str(k.value): v for k, v in zip(opts.keys, opts.values) if isinstance(k, ast.Constant)}
+    ign_opts = sorted(k for k in eff if k not in keys["options"])
+    chk.ob("S7", "cache:get_component_media_cache:option-keys-are-read-by-django", m.loc(opts) if opts is not None else m.loc(cs[0]), not ign_opts,
+           f"every OPTIONS key {sorted(eff)} is one that BaseCache.__init__ reads from OPTIONS" if not ign_opts else
+           f"OPTIONS key(s) {ign_opts} are never read by Django's BaseCache (it reads them from the top level of params): the setting is silently ignored")
+    # no expiry: Django reads `timeout` / `TIMEOUT` from the TOP level; anything but None there (or nothing: default 300 s) lets a
+    # script expire between the render that found it present (has_key, nothing re-stored) and the browser's GET
+    tmo = top.get("TIMEOUT", top.get("timeout"))
+    okt = isinstance(tmo, ast.Constant) and tmo.value is None
+    chk.ob("S7", "cache:get_component_media_cache:no-expiry", m.loc(tmo) if tmo is not None and hasattr(tmo, "lineno") else m.loc(cs[0]), okt,
+           "TIMEOUT None at the top level of params: entries never expire" if okt else
+           f"the timeout Django will use is {'`' + norm(tmo) + '`' if tmo is not None else 'its default of 300 s (no top-level TIMEOUT key)'}: a script cached at t0 is still 'present' for a render at t0+299 s (nothing is re-stored), the page announces its URL, and the GET at t0+300 s answers 404")
     lim = eff.get("MAX_ENTRIES", top.get("max_entries"))
     okl = lim is not None and not (isinstance(lim, ast.Constant) and not isinstance(lim.value, int))
     if okl and isinstance(lim, ast.Constant):
